@@ -179,6 +179,7 @@ type HSOptions struct {
 	Replicate  bool     // sometimes make a processor an exact replica of an earlier one (same domain)
 	EqualLoops bool     // pad every loop to the same length (consumers of a fan-out advance at equal speed)
 	NoFanout   bool
+	RAM        bool // sometimes give a processor a data memory (L 1..3): more ports on the processor, none used by the program
 }
 
 // RichOps lists further opcodes that both back-ends implement (C01's co-implemented table).
@@ -247,6 +248,9 @@ func HandshakeMachine(t *rapid.T, o HSOptions) BMSpec {
 		ps.N = rapid.IntRange(minIn, o.MaxIn).Draw(t, "N")
 		ps.M = rapid.IntRange(1, o.MaxOut).Draw(t, "M")
 		ps.L = 0
+		if o.RAM && rapid.IntRange(0, 2).Draw(t, "hasram") == 0 {
+			ps.L = rapid.IntRange(1, 3).Draw(t, "L")
+		}
 		// bonds for the inputs. Bonds are rendezvous channels, so a processor reads its inputs in
 		// the global order of their sources (external inputs first, then (processor, output) ascending)
 		// and producers write their outputs in index order: with every process ordering its
@@ -338,7 +342,7 @@ func HandshakeMachine(t *rapid.T, o HSOptions) BMSpec {
 	if o.Replicate {
 		for i := 1; i < len(s.Procs); i++ {
 			for j := 0; j < i; j++ {
-				if s.Procs[i].R == s.Procs[j].R && s.Procs[i].N == s.Procs[j].N && s.Procs[i].M == s.Procs[j].M &&
+				if s.Procs[i].R == s.Procs[j].R && s.Procs[i].N == s.Procs[j].N && s.Procs[i].M == s.Procs[j].M && s.Procs[i].L == s.Procs[j].L &&
 					rapid.IntRange(0, 1).Draw(t, "replica") == 1 {
 					s.Procs[i].Prog = append([]string(nil), s.Procs[j].Prog...)
 					s.ShareDomains = true
